@@ -23,7 +23,12 @@ ten); point sets are replayed as c (P + shift) for c = 1e-6, 1e-3, 1e3, -1e-3 (w
 mixed within one batch), rows / forms multiplied by positive factors 1e-3, 1e3 (same
 normalised rows, same kernel, same signs) -- all comparisons are relative to the scale, and
 the covariance laws themselves are TLC theorems (Similar, RowScaleInvariant,
-FormScaleInvariant) for small integer factors.
+FormScaleInvariant) for small integer factors.  Frame conditions (spec/num/Frames.tla): the
+helpers are queries on the caller's arrays -- every history of up to 2 (3 thorough) calls of
+the helpers of one family on shared argument buffers, in five memory layouts (contiguous,
+strided view, transposed view, slice of a larger batch, read-only), must leave every buffer
+and the memory around it bit-identical, give the same answer when asked again, and the first
+and last answers must be the exact ones for the points / rows the caller holds.
 """
 import concurrent.futures
 import json
@@ -74,6 +79,11 @@ def sphere_job(name, n, rng, shell, r2=25, box=5, workers=4, simulate=None, dept
     inv = [i for i in SPHERE_INV if order_free or i != "OrderFree"]
     return dict(name=name, module="num/Spheres.tla", workers=workers, simulate=simulate, depth=depth,
                 cfg=core.cfg(constants=dict(N=n, Rng=rng, Shell=shell, R2=r2, ShellBox=box), invariants=inv))
+
+
+def frames_job(name, maxcalls, workers=2):
+    return dict(name=name, module="num/Frames.tla", workers=workers, simulate=None, depth=None,
+                cfg=core.cfg(constants=dict(MaxCalls=maxcalls), invariants=["Frame", "Repeatable", "FromOriginal", "EmitObs"]))
 
 
 def arcs_job(name, half, workers=4):
@@ -761,6 +771,248 @@ def replay_arcs(run, V, recs, single_every):
     return total
 
 
+
+# ----------------------------------------------------------------------------------------
+# frame conditions (spec/num/Frames.tla): the helpers are queries on the caller's arrays
+# ----------------------------------------------------------------------------------------
+SENTINEL = 7.5
+
+
+class Held:
+    """a caller-owned argument in a given memory layout: .view is what is passed, .store is the memory the caller
+    owns (the view and whatever surrounds it); .dirty() tells whether any byte of it changed"""
+
+    def __init__(self, arr, layout):
+        arr = np.array(arr, dtype=float)
+        if layout == "transposed" and arr.ndim < 2:
+            layout = "strided"
+        if layout == "contiguous" or layout == "readonly":
+            self.store = arr.copy()
+            self.view = self.store
+            if layout == "readonly":
+                self.store.flags.writeable = False
+        elif layout == "strided":
+            self.store = np.full(arr.shape[:-1] + (2 * arr.shape[-1],), SENTINEL)
+            self.store[..., ::2] = arr
+            self.view = self.store[..., ::2]
+        elif layout == "transposed":
+            self.store = np.ascontiguousarray(arr.swapaxes(-1, -2))
+            self.view = self.store.swapaxes(-1, -2)
+        elif layout == "batch_slice":
+            self.store = np.full((3,) + arr.shape, SENTINEL) if arr.ndim == 0 else None
+            if self.store is None:
+                pad = np.full((1,) + arr.shape[1:], SENTINEL) if arr.ndim >= 1 else None
+                self.store = np.concatenate([pad, arr, pad], axis=0) if arr.shape[0] > 0 else arr.copy()
+                self.view = self.store[1:-1]
+            else:
+                self.store[1] = arr
+                self.view = self.store[1]
+        else:
+            raise core.MachineryFailure("unknown layout %r" % layout)
+        self.snap = self.store.copy()
+        if not np.array_equal(self.view, arr):
+            raise core.MachineryFailure("layout %s does not present the intended array" % layout)
+
+    def dirty(self):
+        return self.store.tobytes() != self.snap.tobytes()
+
+
+def unit_held(arr, layout):
+    """a single unit (no batch axis): for batch_slice it is one entry of a caller-owned batch"""
+    if layout != "batch_slice":
+        return Held(arr, layout)
+    h = Held(np.array(arr, dtype=float)[None], "contiguous")
+    big = np.full((3,) + np.shape(arr), SENTINEL)
+    big[1] = arr
+    h.store, h.view, h.snap = big, big[1], big.copy()
+    return h
+
+
+def same_answer(a, b):
+    fa = a if isinstance(a, tuple) else (a,)
+    fb = b if isinstance(b, tuple) else (b,)
+    if len(fa) != len(fb):
+        return False
+    for x, y in zip(fa, fb):
+        x, y = np.asarray(x, dtype=float), np.asarray(y, dtype=float)
+        if x.shape != y.shape or not np.allclose(x, y, rtol=1e-12, atol=1e-12, equal_nan=True):
+            return False
+    return True
+
+
+def frame_inputs(forms, kern, sph, arcs, nb):
+    """a few exact cases per family (a stack of nb units and one unit), from the records of the other modules"""
+    out = {}
+    # rows: groups with a proper complement, one per dimension, plus a full frame
+    picked = []
+    seen_n = set()
+    groups = gs_groups(forms)
+    for (n, k, fj), cases in sorted(groups.items()):
+        if len(cases) >= 2 and ((k < n and (n, "part") not in seen_n and k >= 2) or (k == n and (n, "full") not in seen_n and n <= 3)):
+            seen_n.add((n, "part" if k < n else "full"))
+            picked.append((n, k, fj, cases[:nb]))
+    out["rows"] = picked[:5]
+    fm = {}
+    for c in forms:
+        fm.setdefault(jkey(c["F"]), c)
+    by_n = {}
+    for fj, c in sorted(fm.items()):
+        by_n.setdefault(c["n"], []).append(c)
+    out["form"] = [sorted(v, key=lambda c: hash_int(jkey(c["F"])))[:nb] for n, v in sorted(by_n.items()) if len(v) >= 2][:3]
+    kg = {}
+    for c in kern:
+        kg.setdefault((len(c["M"]), c["n"], c["dim"]), []).append(c)
+    out["matrix"] = [v[:nb] for key, v in sorted(kg.items()) if len(v) >= 2 and key[2] >= 1][:4]
+    sg = {}
+    for c in sph:
+        sg.setdefault(c["n"], []).append(c)
+    out["points"] = [v[len(v) // 3:len(v) // 3 + nb] for n, v in sorted(sg.items())]
+    ok = [c for c in arcs if c["dshort"] and c["dr2l"] and c["dinc"]]
+    out["angles"] = [ok[len(ok) // 4:len(ok) // 4 + nb], ok[len(ok) // 2:len(ok) // 2 + nb]] if len(ok) >= 2 * nb else []
+    return out
+
+
+def replay_frames(run, V, frames, inputs):
+    U = utils_mod()
+    n_hist = 0
+    for fr in sorted(frames, key=lambda o: (o["fam"], o["layout"], o["hist"])):
+        fam, layout, hist = fr["fam"], fr["layout"], fr["hist"]
+        for cases in inputs.get(fam, []):
+            if fam == "rows":
+                n, k, fj, cases = cases
+            if not cases:
+                continue
+            for unit in (False, True):
+                cs = cases[:1] if unit else cases
+                mk = unit_held if unit else Held
+                pick = (lambda a: a[0]) if unit else (lambda a: a)
+                bufs = {}
+                if fam == "rows":
+                    F = np.array(json.loads(fj), dtype=float)
+                    X = np.array([c["rows"] for c in cs], dtype=float)
+                    R = np.array([expected_rows(c) for c in cs])
+                    bufs = dict(form=Held(F, layout), rows=mk(pick(X), layout))
+                elif fam == "form":
+                    Bm = np.array([c["F"] for c in cs], dtype=float)
+                    bufs = dict(form=mk(pick(Bm), layout))
+                elif fam == "matrix":
+                    M = np.array([c["M"] for c in cs], dtype=float)
+                    bufs = dict(matrix=mk(pick(M), layout))
+                elif fam == "points":
+                    P = np.array([c["P"] for c in cs], dtype=float)
+                    bufs = dict(points=mk(pick(P), layout))
+                elif fam == "angles":
+                    half = cs[0]["half"]
+                    T = np.array([[c["a"], c["b"]] for c in cs], dtype=float) * math.pi / half
+                    Rf = np.array([c["ref"] for c in cs], dtype=float) * math.pi / half
+                    bufs = dict(thetas=mk(pick(T), layout), reference=mk(pick(Rf), layout) if not unit else None)
+                    if unit:
+                        bufs.pop("reference")
+                n_hist += 1
+                run.case(key=("frame", fam, layout, tuple(hist), unit, jkey(cs[0].get("rows", cs[0].get("P", cs[0].get("M", cs[0].get("F", 0)))))),
+                         action="history_on_caller_arrays")
+                first = {}
+                for pos, h in enumerate(hist):
+                    if h == "circle_through" and cs[0]["n"] != 2:
+                        continue
+                    b = {name: x.view for name, x in bufs.items()}
+                    if h == "indefinite_orthogonalize":
+                        f = lambda: U.indefinite_orthogonalize(b["form"], b["rows"])
+                    elif h in ("find_isometry", "find_isometry_oriented"):
+                        f = lambda: U.find_isometry(b["form"], b["rows"], h.endswith("oriented"))
+                    elif h == "orthogonal_complement":
+                        f = lambda: U.orthogonal_complement(b["rows"], b["form"])
+                    elif h == "diagonalize_signed":
+                        f = lambda: U.diagonalize_form(b["form"])
+                    elif h == "diagonalize_minkowski_reversed":
+                        f = lambda: U.diagonalize_form(b["form"], order_eigenvalues="minkowski", reverse=True)
+                    elif h == "kernel":
+                        f = lambda: U.kernel(b["matrix"])
+                    elif h == "sphere_through":
+                        f = lambda: U.sphere_through(b["points"])
+                    elif h == "circle_through":
+                        f = lambda: U.circle_through(b["points"][..., 0, :], b["points"][..., 1, :], b["points"][..., 2, :])
+                    elif h == "short_arc":
+                        f = lambda: U.short_arc(b["thetas"])
+                    elif h == "right_to_left":
+                        f = lambda: U.right_to_left(b["thetas"])
+                    elif h == "arc_include":
+                        f = lambda: U.arc_include(b["thetas"], b["reference"] if "reference" in b else float(Rf[0]))
+                    else:
+                        raise core.MachineryFailure("Frames.tla names an unknown helper %r" % h)
+                    out, err = call(f)
+                    run.evaluations += 1
+                    run.actions["history:" + h] = run.actions.get("history:" + h, 0) + 1
+                    hname = h.replace("_oriented", "").replace("diagonalize_signed", "diagonalize_form").replace("diagonalize_minkowski_reversed", "diagonalize_form")
+                    ctx = dict(helper=h, layout=layout, history=hist, call_number=pos + 1, single_unit=unit,
+                               first_case={k2: cs[0][k2] for k2 in ("F", "rows", "M", "P", "a", "b", "ref") if k2 in cs[0]})
+                    if err:
+                        V.add("frame:%s:%s:raised" % (hname, layout), hname + ".raised_on_caller_array", dict(error=err, **ctx))
+                    for name, x in bufs.items():
+                        if x.dirty():
+                            V.add("frame:%s:%s:%s" % (hname, layout, name), hname + ".input_unchanged",
+                                  dict(argument=name, before=x.snap.tolist() if x.snap.size <= 60 else "(%d entries)" % x.snap.size,
+                                       after=x.store.tolist() if x.store.size <= 60 else None, **ctx))
+                            x.snap = x.store.copy()          # report each overwrite once, go on with what the caller now holds
+                    if err:
+                        continue
+                    if h in first and not same_answer(first[h], out):
+                        V.add("frame:%s:%s:repeat" % (hname, layout), hname + ".repeatable", dict(**ctx))
+                    first.setdefault(h, out)
+                    # the answer is still the exact one (checked on the first and on the last call of the history)
+                    if pos in (0, len(hist) - 1):
+                        B1 = len(cs)
+                        tag = "history/%s/%s" % (layout, "unit" if unit else "stack")
+                        o = out
+                        try:
+                            if fam == "rows":
+                                if h == "indefinite_orthogonalize":
+                                    check_orth(V, F, X, R, np.asarray(o).reshape((B1, k, n)), cs, tag)
+                                elif h == "orthogonal_complement":
+                                    check_complement(V, F, X, cs, np.asarray(o).reshape((B1,) + np.asarray(o).shape[-2:]), tag)
+                                else:
+                                    check_isometry(V, F, X, R, cs, h.endswith("oriented"), np.asarray(o).reshape((B1,) + np.asarray(o).shape[-2:]), tag)
+                            elif fam == "form":
+                                W = np.asarray(o[0]).reshape((B1,) + Bm.shape[-2:])
+                                G = W.swapaxes(-1, -2) @ Bm @ W
+                                sc = np.maximum(1.0, np.abs(W).max(axis=(-1, -2)) ** 2 * np.abs(Bm).max(axis=(-1, -2)))
+                                ok, sg = signs_of_gram(G, TOL * sc)
+                                for i in np.nonzero(~ok)[0][:1]:
+                                    V.add("frame:diag:%s" % jkey(cs[i]["F"]), "diagonalize.WtBW_is_diag_pm1", dict(form=cs[i]["F"], **ctx))
+                                for i in np.nonzero(ok)[0]:
+                                    want = cs[i]["signed"] if h == "diagonalize_signed" else None
+                                    wants = [want] if want else [list(reversed(x)) for x in cs[i]["minkowski"]]
+                                    if sg[i].tolist() not in wants:
+                                        V.add("frame:diag:%s" % jkey(cs[i]["F"]), "diagonalize.sign_order", dict(form=cs[i]["F"], got=sg[i].tolist(), want=wants, **ctx))
+                                        break
+                            elif fam == "matrix":
+                                K = np.asarray(o).reshape((B1, cs[0]["n"], cs[0]["dim"]))
+                                if not (np.abs(M @ K).max() <= 1e-8 * max(1.0, np.abs(M).max()) and np.abs(K.swapaxes(-1, -2) @ K - np.eye(cs[0]["dim"])).max() <= TOL):
+                                    V.add("frame:kernel:%s" % jkey(cs[0]["M"]), "kernel.annihilated", dict(**ctx))
+                            elif fam == "points":
+                                ctr = np.asarray(o[0], dtype=float).reshape((B1, -1))
+                                rad = np.asarray(o[1], dtype=float).reshape((B1,))
+                                C0 = np.array([[rat(x) for x in c["centre"]] for c in cs])
+                                R0 = np.array([math.sqrt(rat(c["r2"])) for c in cs])
+                                held_now = np.asarray(bufs["points"].view, dtype=float).reshape(P.shape if not unit else P[:1].shape)
+                                dist = np.linalg.norm(held_now - ctr[:, None, :], axis=-1)
+                                tol = 1e-8 * np.maximum(1.0, R0)
+                                if not ((np.abs(ctr - C0).max(axis=-1) <= tol).all() and (np.abs(rad - R0) <= tol).all()):
+                                    V.add("frame:%s:%s:value" % (h, layout), h + ".centre", dict(want_centre=C0[0].tolist(), got_centre=ctr[0].tolist(), **ctx))
+                                elif not (np.abs(dist - rad[:, None]).max(axis=-1) <= tol).all():
+                                    # the statement itself, on the points the caller holds NOW
+                                    V.add("frame:%s:%s:contains" % (h, layout), h + ".contains_points", dict(points_the_caller_holds=held_now[0].tolist(), centre=ctr[0].tolist(), radius=float(rad[0]), **ctx))
+                            elif fam == "angles":
+                                field = dict(short_arc="short", right_to_left="r2l", arc_include="inc")[h]
+                                want = np.array([c[field] for c in cs], dtype=float) * math.pi / cs[0]["half"]
+                                if not same_angles(np.asarray(o, dtype=float).reshape((B1, 2)), want).all():
+                                    V.add("frame:%s:%s:value" % (h, layout), h + ".order", dict(**ctx))
+                        except Exception as e:
+                            V.add("frame:%s:%s:shape" % (hname, layout), hname + ".shape_in_history", dict(error="%s: %s" % (type(e).__name__, e), **ctx))
+    run.traces += n_hist
+    return n_hist
+
+
 # ----------------------------------------------------------------------------------------
 def run(run, replay=None):
     if replay:
@@ -787,6 +1039,7 @@ def run(run, replay=None):
         "scale covariance: spheres at factors 1e-6, 1e-3, 1e3, -1e-3 after an integer shift (no cancellation is introduced: the "
         "shift is applied before the factor), rows and forms at positive factors 1e-3, 1e3; kernel factors stay far above the "
         "function's documented singular-value tolerance 1e-8",
+        "frame conditions: histories on 6-unit stacks and single units of a few exact cases per family; float64 buffers only",
         "tolerance 1e-9 (1e-8 for kernels and spheres) times the squared size of the compared rows; SVD/eigh-dependent rows are bound by laws only",
     ]
     W = 3 if quick else 4
@@ -810,6 +1063,7 @@ def run(run, replay=None):
             sphere_job("sphere_n2_shell", 2, 0, True, 25, 5, workers=2),
             sphere_job("sphere_n3_shell", 3, 1, True, 9, 3, workers=W, simulate=12, depth=6),
             arcs_job("arcs_12", 12, workers=W),
+            frames_job("frames", 2),
         ]
         single_every = 23
         parallel = 6
@@ -842,6 +1096,7 @@ def run(run, replay=None):
             sphere_job("sphere_n4_shell", 4, 1, True, 4, 2, workers=W, simulate=40, depth=7),
             arcs_job("arcs_12", 12, workers=W),
             arcs_job("arcs_24", 24, workers=8),
+            frames_job("frames", 3),
         ]
         single_every = 17
         parallel = 5
@@ -864,6 +1119,9 @@ def run(run, replay=None):
     if os.environ.get("C18_DIAG"):
         print("C18 phases: tlc %.1fs replay %.1fs; %s" % (t_tlc, time.time() - t0 - t_tlc,
               ", ".join("%s=%.1fs/%d" % (d["run"], d["wall_s"], d["distinct"]) for d in run.tlc_runs)))
+    arcs12 = recs.get("arcs_12", [])
+    n_frames = replay_frames(run, V, recs["frames"], frame_inputs(forms, kern, sph, arcs12, 6))
+    run.extra["histories_on_caller_arrays"] = n_frames
     run.extra["phase_wall_s"] = dict(tlc=round(t_tlc, 1), replay=round(time.time() - t0 - t_tlc, 1))
     run.extra["records"] = dict(gram_schmidt_states=n_gs, forms=n_forms, kernels=n_ker, spheres=n_sph, arc_cases=n_arc)
     run.extra["violations_by_clause_family"] = dict(V.count)
